@@ -137,7 +137,8 @@ func c04Corrupt(r *sim.Run, x []byte, flat []*ref.Box) string {
 			if e := flat[t.Draw(len(flat))]; e.Start < b.Start {
 				back = uint64(b.Start-e.Start) + 16
 			}
-			v := []uint64{1<<63 - 1, 1 << 63, 1<<63 + uint64(t.Draw(16)), 1<<64 - 1, 1<<63 - uint64(b.Start) - uint64(t.Draw(3)), 1<<62 + uint64(t.Draw(1<<20)), uint64(b.Size) + 8, 1 << 32, -back, -back, -back + 16}[t.Draw(11)]
+			v := []uint64{1<<63 - 1, 1 << 63, 1<<63 + uint64(t.Draw(16)), 1<<64 - 1, 1<<63 - uint64(b.Start) - uint64(t.Draw(3)), 1<<62 + uint64(t.Draw(1<<20)), uint64(b.Size) + 8, 1 << 32, -back, -back, -back + 16,
+				uint64(t.Draw(17)), uint64(8 + t.Draw(8)), uint64(b.Size)}[t.Draw(14)] // ... and sizes smaller than the 16-byte header itself
 			binary.BigEndian.PutUint64(x[o+8:], v)
 			r.Fault("stored-largesize-huge")
 			return fmt.Sprintf("largesize=%#x@%d(%s)", v, o, b.Type)
